@@ -61,6 +61,42 @@ def build(init):
     return S
 
 
+def _keep(S, g):
+    """Operand fibers handed to an operation stay alive (the caller's objects):
+    the tree may not share storage lists with them."""
+    S.guests = (getattr(S, "guests", []) + [g])[-3:]
+    return g
+
+
+def _all_fibers(f, out):
+    out.append(f)
+    for p in f.payloads:
+        if isinstance(p, Fiber):
+            _all_fibers(p, out)
+    return out
+
+
+def _shared_lists(S):
+    """None, or a reason: two distinct fibers (of the tree, or the tree and a
+    kept operand) share one coords or payloads list object."""
+    fibs = _all_fibers(S.root, [])
+    mine = {id(f) for f in fibs}
+    for g in getattr(S, "guests", []):
+        for x in _all_fibers(g, []):
+            if id(x) not in mine:
+                fibs.append(x)
+                mine.add(id(x))
+    seen = {}
+    for f in fibs:
+        for what, lst in (("coords", f.coords), ("payloads", f.payloads)):
+            if not isinstance(lst, list):
+                continue
+            if id(lst) in seen and seen[id(lst)][0] is not f:
+                return "shared-%s-list" % what
+            seen[id(lst)] = (f, what)
+    return None
+
+
 def _fiber_at(root, path):
     f = root
     for c in path:
@@ -251,16 +287,16 @@ def _apply(S, op):
         root.append(op[1], Fiber([0], [1]) if op[2] else Fiber())
         return
     if k == "extend2":
-        root.extend(_mkf2(op[1:]))
+        root.extend(_keep(S, _mkf2(op[1:])))
         return
     if k == "assign2":
-        root <<= _mkf2(op[1:])
+        root <<= _keep(S, _mkf2(op[1:]))
         return
     if k == "setf":
         root[op[1]] = Fiber([1], [1])
         return
     if k in ("pop2", "pop2skip"):
-        a = _mkf2(op[1])
+        a = _keep(S, _mkf2(op[1]))
         bi = iter(op[2]) if k == "pop2" else None
         for m, (z_n, a_n) in root << a:
             if k == "pop2skip":
@@ -297,7 +333,7 @@ def _apply(S, op):
     elif k == "append":
         f.append(op[2], op[3])
     elif k == "extend":
-        f.extend(_mkf(op[2:]))
+        f.extend(_keep(S, _mkf(op[2:])))
     elif k == "setv":
         f[op[2]] = op[3]
     elif k == "setcp":
@@ -307,11 +343,11 @@ def _apply(S, op):
     elif k == "imuls":
         f *= op[2]
     elif k == "iaddf":
-        f += _mkf(op[2:])
+        f += _keep(S, _mkf(op[2:]))
     elif k == "imulf":
-        f *= _mkf(op[2:])
+        f *= _keep(S, _mkf(op[2:]))
     elif k == "assign":
-        f <<= _mkf(op[2:])
+        f <<= _keep(S, _mkf(op[2:]))
     elif k == "assignu":
         # the source is an unordered fiber (legal input); the destination stays ordered
         f <<= Fiber(list(op[2]), list(op[3]), ordered=False)
@@ -358,6 +394,14 @@ def step(S, op):
         w = interior_depths_ok(S.root, S.depth)
     if w:
         out.append((op[0], "ill-formed:" + w.split("@")[0], feats, None, rawtree(S.root)))
+    else:
+        sh = _shared_lists(S)
+        if sh:
+            out.append((op[0], "ill-formed:" + sh, feats, None, rawtree(S.root)))
+        for g in getattr(S, "guests", []):
+            if len(g.coords) != len(g.payloads):
+                out.append((op[0], "operand-ill-formed:length-mismatch", feats, None, rawtree(S.root)))
+                break
     if err is not None:
         order_reject = isinstance(err, CoordinateError) or \
             (isinstance(err, AssertionError) and op[0] in ORDER_REJECT)
